@@ -2,6 +2,7 @@ import Fundraising.Spec.Frame
 import Fundraising.Proofs.ExecLemmas
 import Fundraising.Proofs.Reach
 import Fundraising.Proofs.GenesisProofs
+import Fundraising.Proofs.FrameViews
 /-
   C08 / C10 / C11 / C12 / C13 / C19 — one-step theorems about what an operation may change.
   STATEMENTS ARE FIXED (cited by the Props files).
@@ -11,21 +12,43 @@ namespace Fundraising
 /-- **no auction is ever removed, ids are never reused** (any operation but `reset`) -/
 theorem views_grow (st : State) (op : Op) (hop : op ≠ .reset) (hwf : WF st.core) :
     st.core.views.length ≤ (step st op).2.core.views.length := by
-  sorry
+  rcases Frame.step_kind st op hop hwf with ⟨t, rfl⟩ | k
+  · exact Nat.le_of_eq (Frame.block_spec st t hwf).1.symm
+  · cases k with
+    | same hvs => rw [hvs]; exact Nat.le_refl _
+    | create m nv _ hvs => rw [hvs, List.length_append]; exact Nat.le_add_right _ _
+    | cancel _ _ _ _ fp => exact Nat.le_of_eq fp.len.symm
+    | place _ _ _ _ _ _ _ _ _ _ fp => exact Nat.le_of_eq fp.len.symm
+    | modify _ _ _ _ _ _ _ _ _ fp => exact Nat.le_of_eq fp.len.symm
+    | allowed _ _ _ _ fp => exact Nat.le_of_eq fp.len.symm
 
 /-- **every existing auction takes a legal step** (any operation but `reset`): status moves
     along a lifecycle edge, terms unchanged, end times/bids/allow-list/instalments only grow -/
 theorem view_step (st : State) (op : Op) (hop : op ≠ .reset) (hwf : WF st.core) (i : Nat) (v : AView)
     (hv : st.core.views[i]? = some v) :
     ∃ v', (step st op).2.core.views[i]? = some v' ∧ ViewStep v v' := by
-  sorry
+  rcases Frame.step_kind st op hop hwf with ⟨t, rfl⟩ | k
+  · obtain ⟨_, _, h, _⟩ := Frame.block_spec st t hwf
+    obtain ⟨v', hv', r⟩ := h i v hv
+    exact ⟨v', hv', r.viewStep⟩
+  · obtain ⟨v', hv', a⟩ := k.at hv
+    refine ⟨v', hv', ?_⟩
+    have w := hwf.views i v hv
+    cases a with
+    | same => exact Frame.viewStep_refl v
+    | cancel signer hop' hsigner hst hnn hbank => exact Frame.viewStep_cancel hst _
+    | place bidder t price denom amt r m hop' hst hallowed => exact Frame.viewStep_place v r _
+    | modify bidder bidId price denom amt bid hop' hst hty hfind hbidder hdenom hprice hamt =>
+      exact Frame.viewStep_modify w hfind hprice hamt
+    | allowed l hmsg kept => exact Frame.viewStep_allowed v kept
 
 /-- **frame, message and keeper-API operations**: an operation that names auction `a`
     leaves every other auction's record, bids, allow-list, instalments, counters and escrow
     balances exactly as they were -/
 theorem frame_target (st : State) (op : Op) (a : Nat) (ht : op.target = some a) (j : Nat) (hj : j ≠ a) :
     (step st op).2.core.views[j]? = st.core.views[j]? ∧ SameEscrows st.core (step st op).2.core j := by
-  sorry
+  have fp := Frame.targeted_fp st op a ht
+  exact ⟨fp.others j hj, fp.same hj⟩
 
 /-- **frame, creation**: creating an auction leaves every existing auction and its escrows
     untouched and appends at most one auction -/
@@ -33,7 +56,8 @@ theorem frame_create (st : State) (m : CreateMsg) (j : Nat) (hj : j < st.core.vi
     (step st (.msg (.create m))).2.core.views[j]? = st.core.views[j]? ∧
     SameEscrows st.core (step st (.msg (.create m))).2.core j ∧
     (step st (.msg (.create m))).2.core.views.length ≤ st.core.views.length + 1 := by
-  sorry
+  obtain ⟨h1, h2, h3⟩ := Frame.create_frame st m
+  exact ⟨h1 j hj, h2.same (Nat.ne_of_lt hj), h3⟩
 
 /-- **frame, blocks**: an auction with nothing due at the block's time is untouched by the
     block, whatever happens to the other auctions in it (settlement of one auction never
@@ -42,7 +66,7 @@ theorem frame_block_idle (st : State) (t : Int) (hwf : WF st.core) (j : Nat) (v 
     (hv : st.core.views[j]? = some v) (hidle : idleAt v t = true) :
     (step st (.block t)).2.core.views[j]? = some v ∧
     SameEscrows st.core (step st (.block t)).2.core j := by
-  sorry
+  exact (Frame.block_spec st t hwf).2.2.2 j v hv hidle
 
 /-- **only messages of the auctioneer cancel** (C12): an auction becomes cancelled in one
     step only through `MsgCancelAuction` signed by its auctioneer while it is in stand-by,
@@ -57,7 +81,27 @@ theorem cancelled_only_by_cancel (st : State) (op : Op) (hop : op ≠ .reset) (h
     (step st op).2.core.bank (.sell i) v.a.sellDenom = 0 ∧
     (step st op).2.core.bank (.user v.a.auctioneer) v.a.sellDenom =
       st.core.bank (.user v.a.auctioneer) v.a.sellDenom + st.core.bank (.sell i) v.a.sellDenom := by
-  sorry
+  rcases Frame.step_kind st op hop hwf with ⟨t, rfl⟩ | k
+  · obtain ⟨_, _, h, _⟩ := Frame.block_spec st t hwf
+    obtain ⟨v'', hv'', r⟩ := h i v hv
+    have e : v'' = v' := by rw [hv'] at hv''; exact (Option.some.inj hv'').symm
+    subst e
+    exact absurd (r.notCancel hs') hs
+  · obtain ⟨v'', hv'', a⟩ := k.at hv
+    have e : v'' = v' := by rw [hv'] at hv''; exact (Option.some.inj hv'').symm
+    subst e
+    cases a with
+    | same => exact absurd hs' hs
+    | cancel signer hop' hsigner hst hnn hbank =>
+      subst hsigner
+      refine ⟨hop', hst, ?_, ?_, ?_⟩
+      · intro hty; simp [hty]
+      · rw [hbank]; simp [move_apply]
+      · rw [hbank]; simp [move_apply]
+    | place bidder t price denom amt r m hop' hst hallowed => exact absurd hs' hs
+    | modify bidder bidId price denom amt bid hop' hst hty hfind hbidder hdenom hprice hamt =>
+      exact absurd hs' hs
+    | allowed l hmsg kept => exact absurd hs' hs
 
 /-- **bids change only through their owner's MsgModifyBid, new bids only through
     MsgPlaceBid, only while the auction is open** (C08/C11) -/
@@ -74,19 +118,91 @@ theorem bids_change_only_by_owner (st : State) (op : Op) (hop : op ≠ .reset) (
         ∃ b, v'.bids.getLast? = some b ∧ b.id = v.bids.length + 1 ∧
           (lookupAllowed v.allowed b.bidder).isSome = true ∧
           op = .msg (.place b.bidder i (some b.type) b.price b.denom b.amt)) := by
-  sorry
+  show Frame.BidsClaim op i v v'
+  have w := hwf.views i v hv
+  rcases Frame.step_kind st op hop hwf with ⟨t, rfl⟩ | k
+  · obtain ⟨_, _, h, _⟩ := Frame.block_spec st t hwf
+    obtain ⟨v'', hv'', r⟩ := h i v hv
+    have e : v'' = v' := by rw [hv'] at hv''; exact (Option.some.inj hv'').symm
+    subst e
+    obtain ⟨f, hf⟩ := r.bids
+    exact Frame.bidsClaim_flags w f hf
+  · obtain ⟨v'', hv'', a⟩ := k.at hv
+    have e : v'' = v' := by rw [hv'] at hv''; exact (Option.some.inj hv'').symm
+    subst e
+    cases a with
+    | same => exact Frame.bidsClaim_same w rfl
+    | cancel signer hop' hsigner hst hnn hbank => exact Frame.bidsClaim_same w rfl
+    | allowed l hmsg kept => exact Frame.bidsClaim_same w rfl
+    | place bidder t price denom amt r m hop' hst hallowed =>
+      constructor
+      · intro b hb b' hb' hid hne
+        simp only at hb'
+        rcases List.mem_append.mp hb' with h1 | h1
+        · have := Frame.id_unique w b' h1 b hb hid
+          subst this
+          simp at hne
+        · simp only [List.mem_singleton] at h1
+          subst h1
+          simp only at hid
+          have h2 := Frame.id_le w b hb
+          have h3 := w.bidSeq
+          omega
+      · intro _
+        refine ⟨hst, by simp, ⟨i, v.bidSeq + 1, bidder, t, price, denom, amt, m⟩, by simp, ?_, hallowed, hop'⟩
+        show v.bidSeq + 1 = v.bids.length + 1
+        rw [w.bidSeq]
+    | modify bidder bidId price denom amt bid hop' hst hty hfind hbidder hdenom hprice hamt =>
+      obtain ⟨hmem, hbid, huniq⟩ := Frame.find_unique w hfind
+      constructor
+      · intro b hb b' hb' hid hne
+        obtain ⟨x, hx, rfl⟩ := List.mem_map.mp hb'
+        by_cases hx' : x.id = bidId
+        · have e1 := huniq x hx hx'
+          subst e1
+          have hxb : (x.id == bidId) = true := by simpa using hx'
+          simp only [hxb, if_true] at hid hne ⊢
+          have e2 := Frame.id_unique w x hx b hb hid
+          subst e2
+          refine ⟨hst, hty, ?_⟩
+          rw [hop', hbidder, hdenom, hx']
+        · have hx'' : (x.id == bidId) = false := by simpa using hx'
+          simp only [hx''] at hid hne
+          have e2 := Frame.id_unique w x hx b hb hid
+          subst e2
+          simp at hne
+      · intro hlt
+        simp only [List.length_map] at hlt
+        omega
 
 /-- **messages never change an allow-list in a default build** (C10) -/
 theorem msg_keeps_allowlists (st : State) (m : Msg) (hoff : st.core.enableAdd = false)
     (i : Nat) (v : AView) (hv : st.core.views[i]? = some v) :
     ∃ v', (step st (.msg m)).2.core.views[i]? = some v' ∧ v'.allowed = v.allowed := by
-  sorry
+  obtain ⟨v', hv', a⟩ := (Frame.msg_kind st m).at hv
+  refine ⟨v', hv', ?_⟩
+  cases a with
+  | same => rfl
+  | cancel signer hop' hsigner hst hnn hbank => rfl
+  | place bidder t price denom amt r m' hop' hst hallowed => rfl
+  | modify bidder bidId price denom amt bid hop' hst hty hfind hbidder hdenom hprice hamt => rfl
+  | allowed l hmsg kept =>
+    have := hmsg m rfl
+    rw [hoff] at this
+    cases this
 
 /-- **MsgAddAllowedBidder is rejected in a default build** (C10) -/
 theorem addAllowed_rejected (st : State) (aid : Nat) (ab : AllowedArg) (hoff : st.core.enableAdd = false) :
     (step st (.msg (.addAllowed aid ab))).1.res ≠ .ok ∧
     (step st (.msg (.addAllowed aid ab))).2.core = st.core := by
-  sorry
+  simp only [step]
+  rcases runAtomic_cases st true (fun c => deliver c (.addAllowed aid ab)) with
+    ⟨c, hc, e⟩ | ⟨e, _, hs, hr⟩
+  · have h := (Frame.handle_addAllowed (Frame.deliver_ok hc)).1
+    simp only at h
+    rw [hoff] at h
+    cases h
+  · exact ⟨hr, by rw [hs]⟩
 
 /-- **end times** (C13): an operation changes an auction's end times only by appending
     exactly one end time, one extended period after the last one, in a block at or after
@@ -98,6 +214,18 @@ theorem endTimes_step (st : State) (op : Op) (hop : op ≠ .reset) (hwf : WF st.
       v.a.endTimes.length < v.a.maxExt + 1 ∧
       v'.a.endTimes = v.a.endTimes ++ [v.a.lastEnd + 86400 * (st.core.params.period : Int)] ∧
       v'.a.status = .started := by
-  sorry
+  rcases Frame.step_kind st op hop hwf with ⟨t, rfl⟩ | k
+  · obtain ⟨_, _, h, _⟩ := Frame.block_spec st t hwf
+    obtain ⟨v'', hv'', r⟩ := h i v hv
+    have e : v'' = v' := by rw [hv'] at hv''; exact (Option.some.inj hv'').symm
+    subst e
+    rcases r.ends with e | ⟨h1, h2, h3, h4, h5, h6⟩
+    · exact absurd e hne
+    · have h7 := (hwf.views i v hv).auction.endLen
+      exact ⟨t, rfl, h1, h2, h3, by omega, h5, h6⟩
+  · obtain ⟨v'', hv'', a⟩ := k.at hv
+    have e : v'' = v' := by rw [hv'] at hv''; exact (Option.some.inj hv'').symm
+    subst e
+    cases a <;> exact absurd rfl hne
 
 end Fundraising
